@@ -16,7 +16,9 @@ time_t time(time_t *t) { if (t) *t = 1234567; return 1234567; }
 #define MAXK 32
 static jwk_set_t *g_set;
 static int g_nkeys, g_rounds;
-static char *g_ref_tok[MAXK];
+#define MAXT 256
+static char *g_ref_tok[MAXK][MAXT];   /* per key and per thread id: every thread signs its own content */
+static int g_nthreads;
 static int g_deterministic[MAXK];
 static long g_mismatch;
 static pthread_barrier_t g_bar;
@@ -27,13 +29,15 @@ static int is_det(jwt_alg_t a)
 	       a == JWT_ALG_RS384 || a == JWT_ALG_RS512 || a == JWT_ALG_EDDSA;
 }
 
-static char *gen_one(int k, char *err, size_t el)
+static char *gen_one(int k, int tid, char *err, size_t el)
 {
 	jwt_builder_t *b = jwt_builder_new();
 	jwt_value_t v;
 	char *tok;
 	jwt_builder_setkey(b, JWT_ALG_NONE, jwks_item_get(g_set, 2 * k));
 	jwt_set_SET_JSON(&v, NULL, "{\"sub\":\"thread\",\"n\":[1,2,3]}");
+	jwt_builder_claim_set(b, &v);
+	jwt_set_SET_INT(&v, "tid", tid);
 	jwt_builder_claim_set(b, &v);
 	tok = jwt_builder_generate(b);
 	if (!tok && err) snprintf(err, el, "%s", jwt_builder_error_msg(b));
@@ -54,19 +58,22 @@ static int verify_one(int k, const char *tok)
 static void *worker(void *arg)
 {
 	unsigned seed = (unsigned)(size_t)arg;
+	int tid = (int)(seed % 1000);
 	long bad = 0;
 	pthread_barrier_wait(&g_bar);
 	usleep(rand_r(&seed) % 300);                 /* randomised start skew */
 	for (int r = 0; r < g_rounds; r++) {
 		for (int i = 0; i < g_nkeys; i++) {
-			int k = (i + (int)seed) % g_nkeys;
-			char *tok = gen_one(k, NULL, 0);
-			if (!tok) { bad++; continue; }
-			if (g_deterministic[k] && strcmp(tok, g_ref_tok[k])) bad++;
-			if (verify_one(k, tok)) bad++;                 /* own token must verify */
-			if (verify_one(k, g_ref_tok[k])) bad++;        /* the sequential token must verify */
+			int k = (i + tid) % g_nkeys;
+			char err[200] = "";
+			char *tok = gen_one(k, tid, err, sizeof err);
+#define BAD(what) do { bad++; if (bad <= 2) fprintf(stderr, "MISMATCH thread=%d round=%d key=%d: %s %s\n", tid, r, k, what, err); } while (0)
+			if (!tok) { BAD("generate failed"); continue; }
+			if (g_deterministic[k] && strcmp(tok, g_ref_tok[k][tid])) BAD("token differs from the sequential one");
+			if (verify_one(k, tok)) BAD("own token rejected");
+			if (verify_one(k, g_ref_tok[k][(tid + 1) % g_nthreads])) BAD("sequentially made token rejected");
 			tok[strlen(tok) - 2] = tok[strlen(tok) - 2] == 'A' ? 'B' : 'A';
-			if (!verify_one(k, tok)) bad++;                /* a corrupted one must not */
+			if (!verify_one(k, tok)) BAD("corrupted token accepted");
 			free(tok);
 		}
 	}
@@ -78,6 +85,8 @@ int main(int argc, char **argv)
 {
 	if (argc < 6) return 2;
 	int nthreads = atoi(argv[2]);
+	if (nthreads > MAXT) nthreads = MAXT;
+	g_nthreads = nthreads;
 	g_rounds = atoi(argv[3]);
 	if (jwt_set_crypto_ops(argv[4])) { fprintf(stderr, "no such provider\n"); return 2; }
 	g_set = jwks_create_fromfile(argv[1]);
@@ -87,15 +96,17 @@ int main(int argc, char **argv)
 	for (int k = 0; k < g_nkeys; k++) {
 		char err[256] = "";
 		g_deterministic[k] = is_det(jwks_item_alg(jwks_item_get(g_set, 2 * k)));
-		g_ref_tok[k] = gen_one(k, err, sizeof err);
-		if (!g_ref_tok[k] || verify_one(k, g_ref_tok[k])) { fprintf(stderr, "sequential reference failed for key %d: %s\n", k, err); return 2; }
+		for (int t = 0; t < nthreads; t++) {
+			g_ref_tok[k][t] = gen_one(k, t, err, sizeof err);
+			if (!g_ref_tok[k][t] || verify_one(k, g_ref_tok[k][t])) { fprintf(stderr, "sequential reference failed for key %d: %s\n", k, err); return 2; }
+		}
 	}
-	pthread_t th[256];
+	pthread_t th[MAXT];
 	pthread_barrier_init(&g_bar, NULL, (unsigned)nthreads);
 	for (int i = 0; i < nthreads; i++) pthread_create(&th[i], NULL, worker, (void *)(size_t)(atoi(argv[5]) * 1000 + i));
 	for (int i = 0; i < nthreads; i++) pthread_join(th[i], NULL);
 	printf("threads=%d rounds=%d keys=%d provider=%s mismatches=%ld\n", nthreads, g_rounds, g_nkeys, jwt_get_crypto_ops(), g_mismatch);
-	for (int k = 0; k < g_nkeys; k++) free(g_ref_tok[k]);
+	for (int k = 0; k < g_nkeys; k++) for (int t = 0; t < nthreads; t++) free(g_ref_tok[k][t]);
 	jwks_free(g_set);
 	return g_mismatch ? 1 : 0;
 }
